@@ -22,6 +22,7 @@ EXPLANATION = (
     " Added after seed round 6: I6 every semiring whose plus is a true sum (a + b, log-sum-exp, '(%s + %s)') resolves is_dsp() to True, the flag by which get_evaluatable picks a compiled circuit."
     " Added after seed round 7: I4 also forbids an early exit from a fold loop while an is_zero of the package compares with a tolerance."
     " Added after seed round 8: I7 an evaluator stores nothing on the shared compiled formula that depends on its own semiring or weights."
+    " Added after seed round 10: I4 follows a fold that was moved into a helper method of the same class (inlining bound 1)."
 )
 TECHNIQUE = "static analysis: protocol conformance over the class hierarchy, sibling agreement of circuit folds, decision tables"
 LEVEL_TEXT = EXPLANATION
@@ -183,6 +184,12 @@ def _fold_table(func):
             ret = None
             # the accumulator is the local that is returned (first component when a tuple is returned)
             acc = None
+            body = n.body
+            # the fold may live in a helper method of the same class: `return self._helper(children)` (inlining bound 1)
+            if len(body) == 1 and isinstance(body[0], ast.Return) and isinstance(body[0].value, ast.Call) and isinstance(body[0].value.func, ast.Attribute) \
+                    and norm(body[0].value.func.value) == "self" and func.cls is not None and body[0].value.func.attr in func.cls.methods:
+                body = func.cls.methods[body[0].value.func.attr].node.body
+            n = ast.If(test=n.test, body=body, orelse=[])
             for st in n.body:
                 if isinstance(st, ast.Return) and st.value is not None:
                     ret = norm(st.value)
